@@ -382,13 +382,38 @@ func (fr *Frame) boundedChan(ch Val) string {
 func (fr *Frame) boundedWait(st *State, ins ssa.Instruction, site string, justified string) {
 	r := fr.r
 	var fc *FuncContract
+	nonblocking := false
 	for p := fr; p != nil; p = p.parent {
 		if p.contract != nil && p.contract.Flags["bounded"] != nil {
 			fc = p.contract
 			break
 		}
+		if p.contract != nil && p.contract.Flags["nonblocking"] != nil {
+			// callers rely on this function never waiting: any blocking operation refutes the flag
+			fc = p.contract
+			nonblocking = true
+			break
+		}
+		if p.spawned {
+			break // a goroutine body checked at its go statement: the spawner's flags do not apply to it
+		}
 	}
 	if fc == nil {
+		return
+	}
+	if nonblocking {
+		for p := fr; p != nil; p = p.parent {
+			if p.contract == nil {
+				continue
+			}
+			for _, w := range p.contract.Flags["wait"] {
+				if strings.HasPrefix(w, site+" ") || w == site {
+					r.assumes[fmt.Sprintf("bounded-wait justification (trusted): %s %s", p.fname, w)] = true
+					return
+				}
+			}
+		}
+		r.require(st, "nonblocking", fr.oblFunc(), fr.oblName(site), "false", fc.Flags["nonblocking"], ins.Pos(), "blocking operation "+site+" in a function declared nonblocking")
 		return
 	}
 	tags := fc.Flags["bounded"]
